@@ -21,6 +21,13 @@ def zext(bv, n):
     return z3.ZeroExt(n - bv.size(), bv) if bv.size() < n else bv
 
 
+def eqv(a, b):
+    """equality of two bit-vectors as unsigned integers (width tolerant: a width mismatch must fail an obligation,
+    not crash the checker)"""
+    n = max(a.size(), b.size())
+    return zext(a, n) == zext(b, n)
+
+
 def mk_settings(memtype="DDR3", nphases=4, rdphase=0, wrphase=1, cl=6, cwl=5, read_latency=5, write_latency=1,
                 bankbits=1, rowbits=11, colbits=10, nranks=1, databits=8, dfi_databits=16,
                 tRP=2, tRCD=2, tWR=2, tWTR=2, tREFI=100, tRFC=8, tFAW=None, tCCD=1, tRRD=None, tRC=6, tRAS=4,
